@@ -10,15 +10,19 @@ func init() {
 			"success; only io.EOF at a record boundary may become success (R13b); the count of every stream operation reaches the running total that is returned " +
 			"(R13c); each restore function returns success only behind a post-read consistency test of the restored state (R13d); a record buffer that outlives one record " +
 			"(declared outside the per-element callback or loop that writes it) has every byte the region assigns assigned on every path to the write, so no byte of the previous record is written again (R13f); the caller's reader is not handed to a read-ahead wrapper (R13g); " +
-			"no read turns io.EOF into success - the formats announce their record counts (R13h); failing returns hand out the running total (R13i). These clauses hold for every " +
+			"no read turns io.EOF into success - the formats announce their record counts (R13h); failing returns hand out the running total (R13i) and every count is added to it before the error test that follows the operation (R13j); the restore loops store every record they read (R13k). These clauses hold for every " +
 			"reader chunking, truncation point and writer failure offset because they hold on every path.",
 		NotDecided: "equality of the restored forest with the original, its evolution under further blocks, agreement of writer and reader wire formats and of " +
-			"SerializeSize (settled by the round-trip tests on the first seed) behaviour on corrupted (as opposed to truncated / short-read) data, the bytes of a partially transferred field in the count returned with an error.",
+			"SerializeSize (settled by the round-trip tests on the first seed) behaviour on corrupted (as opposed to truncated / short-read) data.",
 		Assumptions: []string{"io.ReadFull / io.ReadAtLeast return a nil error only when the buffer was filled (stdlib contract)", "io.Writer.Write returns a non-nil error when it writes fewer bytes than given (stdlib contract)"},
 		Rules: []RuleDef{
 			{ID: "R13e", Statement: "a restored forest carries the constructor's configuration", Run: func(p *Program, r *Report) {
 				r.Rule("R13e", "RESTORE-SETS-CONFIG: a restore function starts from the constructor's value or stores every field the constructor stores (a restored forest must also evolve like the original)")
 				checkRestoreConfig(p, r, "R13e")
+			}},
+			{ID: "R13k", Statement: "every record read is stored", Run: func(p *Program, r *Report) {
+				r.Rule("R13k", "STORE-EVERY-RECORD: a loop of the map forest's restore function that rebuilds the node store or the leaf index stores on every iteration - no record the stream carried is left out of the restored forest")
+				checkStoreEveryRecord(p, r, "R13k", []string{"(*MapPollard).Read"}, 2)
 			}},
 			{ID: "R13", Statement: "io.Reader / io.Writer discipline of the serialization code", Run: runIODiscipline},
 		},
